@@ -28,7 +28,10 @@
 (*                                                                         *)
 (* All machines live in one module and share the variables; `mode` (fixed  *)
 (* by Init) says which machine a behaviour belongs to, the variables of    *)
-(* the other machines stay at 0.                                           *)
+(* the other machines stay at 0.  Calendar_big.cfg (thorough tier) makes   *)
+(* every serial day a state of one single run from 1900-01-00;             *)
+(* Calendar_mc.cfg (quick tier) walks single days through 1901 and whole   *)
+(* months afterwards, and starts the search in every century.              *)
 (***************************************************************************)
 EXTENDS Integers, Sequences, FiniteSets, TLC, Json
 
@@ -38,6 +41,13 @@ CONSTANTS
   DayStepsUntil,\* the calendar machine advances day by day below this serial and
                 \* by whole months from the next month start on (thorough tier:
                 \* beyond LastSerial, i.e. every single day is a state)
+  CalSeeds,     \* serials at which the calendar machine starts: {0} for the
+                \* real claim.  More seeds only make TLC's search wide instead
+                \* of deep: the run from one seed walks into the next seed's
+                \* initial state, which must then be the *same* state (the number
+                \* of distinct states stays what it is with the single seed 0)
+  SplitChains,  \* BOOLEAN: likewise start the argument machines at every hour /
+                \* every month argument / every 100th month shift
   DateYears,    \* year arguments of DATE that are walked
   ArgLo, ArgHi, \* month and day arguments of DATE range over ArgLo..ArgHi
   ShiftStarts,  \* start serials of EOMONTH/EDATE
@@ -63,12 +73,11 @@ vars      == <<mode, calVars, dateVars, shiftVars, timeVars, yfVars>>
 MaxSerial == 2958465        \* 9999-12-31, Excel's last date
 
 Min(a, b) == IF a < b THEN a ELSE b
-Abs(a)    == IF a < 0 THEN -a ELSE a
 
 \* tagged result values (DESIGN 2.2)
 Num(k) == <<"N", k>>
 NumErr == <<"E", "#NUM!">>
-Anything    == <<"ANY">>          \* statement silent: anything that is not an exception
+Anything == <<"ANY">>        \* statement silent: any value, but never an exception
 
 --------------------------------------------------------------------------
 (* Month lengths.  Excel's leap rule is the Gregorian one plus 1900.       *)
@@ -271,8 +280,12 @@ IdleYf    == fa = 0 /\ fb = 0 /\ fbasis = 0 /\ fswap = 0
 
 InitCal ==
   /\ mode = "cal"
-  /\ n = 0 /\ y = 1900 /\ m = 1 /\ d = 0     \* "1900-01-00"
-  /\ wd = 7                                  \* Excel calls it a Saturday
+  /\ n \in CalSeeds
+  /\ IF n = 0
+     THEN y = 1900 /\ m = 1 /\ d = 0         \* "1900-01-00"
+          /\ wd = 7                          \* Excel calls it a Saturday
+     ELSE y = Parts(n)[1] /\ m = Parts(n)[2] /\ d = Parts(n)[3]
+          /\ wd = WeekdayOf(n)
   /\ IdleDate /\ IdleShift /\ IdleTime /\ IdleYf
 
 \* quick tier only: once past DayStepsUntil and at a month start whose
@@ -298,7 +311,8 @@ NextMonth ==                      \* = MonthLen(y, m) times NextDay
 
 InitDate ==
   /\ mode = "date"
-  /\ ay \in DateYears /\ am = ArgLo /\ ad = ArgLo
+  /\ ay \in DateYears /\ ad = ArgLo
+  /\ am \in (IF SplitChains /\ ay \in 0..9999 THEN ArgLo..ArgHi ELSE {ArgLo})
   /\ IdleCal /\ IdleShift /\ IdleTime /\ IdleYf
 
 NextDayArg ==                     \* DATE(y, m, d) -> DATE(y, m, d+1)
@@ -314,7 +328,9 @@ NextMonthArg ==                   \* ... -> DATE(y, m+1, ArgLo)
 
 InitShift ==
   /\ mode = "shift"
-  /\ sn \in ShiftStarts /\ sk = ShiftLo
+  /\ sn \in ShiftStarts
+  /\ sk \in (IF SplitChains THEN {k \in ShiftLo..ShiftHi : (k - ShiftLo) % 100 = 0}
+             ELSE {ShiftLo})
   /\ IdleCal /\ IdleDate /\ IdleTime /\ IdleYf
 
 NextShift ==                      \* one more month
@@ -324,7 +340,8 @@ NextShift ==                      \* one more month
 
 InitTime ==
   /\ mode = "time"
-  /\ ts = 0 /\ th = 0 /\ tm = 0 /\ tsec = 0
+  /\ th \in (IF SplitChains THEN 0..23 ELSE {0})
+  /\ ts = 3600 * th /\ tm = 0 /\ tsec = 0
   /\ IdleCal /\ IdleDate /\ IdleShift /\ IdleYf
 
 Tick ==                           \* the clock advances one second
